@@ -30,23 +30,27 @@ ASSUMPTIONS = ["Distribution.draw_mw stubbed (same targets handed to both runs)"
 OUTSIDE = ["histories longer than 1 (quick) / 2 (thorough) operations between the two generations (each history also contains run A itself)", "System.generator (cannot be handed a generator)", "force-field typing inside histories (covered by C20)"]
 REQUIRED_LABELS = ["same molecule after any history", "same options and probabilities at every decision after any history", "parsed object unchanged by the operation", "global generator untouched"]
 
-SK = ["homo-prefix-suffix", "left-terminal-list", "endgroup-initiated", "chain-stopper-unit", "block-with-connector", "random-copolymer-weighted", "star-three-descriptors"]
+SK = ["homo-prefix-suffix", "left-terminal-list", "endgroup-initiated", "chain-stopper-unit", "list-to-endgroup-mixed", "dead-end-endgroup", "block-with-connector", "random-copolymer-weighted", "star-three-descriptors"]
 SECOND = [0, 3, 4, 5, 9, 11]  # generate, reaction-graph, atom-graph, mirror, parse-again, generate-same-stream
 OPS = ["generate", "str", "print-without-extensions", "reaction-graph", "atom-graph", "mirror", "elements", "residues", "generable", "parse-again", "global-rng-draw",
        "generate-same-stream", "mirror-generate"]
 
 
 def bounds(tier):
-    return {"skeletons": SK if tier == "thorough" else SK[:5], "history length": "1 (quick); thorough: 1 at N=2 and 2 at N=1 with the second operation from {generate, reaction-graph, atom-graph, mirror, parse-again}",
+    return {"skeletons": SK if tier == "thorough" else SK[:7], "history length": "1 (quick); thorough: 1 at N=2 and 2 at N=1 with the second operation from {generate, reaction-graph, atom-graph, mirror, parse-again}",
             "operations": OPS, "units per block": 1 if tier == "quick" else 2}
 
 
 def cases(tier):
     out = []
-    sk = [s for s in gendrive.SKELETONS if s["name"] in (SK if tier == "thorough" else SK[:5])]
+    sk = [s for s in gendrive.SKELETONS if s["name"] in (SK if tier == "thorough" else SK[:7])]
     for s in sk:
         for first in range(len(OPS)):
-            out.append({"name": f"{s['name']}/h1/first={OPS[first]}", "skel": s, "hl": 1, "first": first, "N": 1 if tier == "quick" else 2})
+            if tier == "quick" and s["name"] == "list-to-endgroup-mixed" and first not in (0, 3, 11):
+                continue  # two units per block are expensive: the quick tier keeps three operations for this skeleton
+            # (the list of 'list-to-endgroup-mixed' is only consulted for the second unit)
+            out.append({"name": f"{s['name']}/h1/first={OPS[first]}", "skel": s, "hl": 1, "first": first,
+                        "N": 2 if (tier != "quick" or s["name"] == "list-to-endgroup-mixed") else 1})
     out.append({"name": "static-initiator/result-used-as-prefix", "kind": "prefix-reuse"})
     if tier == "thorough":
         # two operations between the generations (second one from the state-changing candidates), N = 1
@@ -56,10 +60,56 @@ def cases(tier):
     return out
 
 
-def digest(g, mol):
+def deep_state(o, keys=None, seen=None, depth=0):
+    """every attribute of every object of the package reachable from o, as nested lists (cycles and shared objects by their
+    first-visit number, so that aliasing is part of the state).  keys: {object number: attribute names} fixes the attributes
+    that are looked at (those the object had when it was parsed: attributes added later are caches, not parsed state)."""
+    from symx.npshim import Arr
+    from symx.symstr import SymStr
+
+    if seen is None:
+        seen = {}
+    if o is None or isinstance(o, (bool, int, float, str, SymStr)) or core.is_sym(o):
+        return o
+    if depth > 12:
+        return "..."
+    if isinstance(o, Arr):
+        return [deep_state(x, keys, seen, depth + 1) for x in o.v]
+    if isinstance(o, (list, tuple)):
+        return [deep_state(x, keys, seen, depth + 1) for x in o]
+    if isinstance(o, dict):
+        return [[str(k), deep_state(v, keys, seen, depth + 1)] for k, v in sorted(o.items(), key=lambda kv: str(kv[0]))]
+    tn = type(o).__name__
+    if type(o).__module__.startswith("numpy"):
+        try:
+            return [deep_state(x, keys, seen, depth + 1) for x in o.tolist()] if hasattr(o, "tolist") and getattr(o, "ndim", 0) else float(o)
+        except Exception:
+            return tn
+    if type(o).__module__.startswith("gbigsmiles"):
+        if id(o) in seen:
+            return ["ref", seen[id(o)]]
+        n = seen[id(o)] = len(seen)
+        names = sorted(vars(o)) if hasattr(o, "__dict__") else []
+        if keys is not None:
+            if n in keys:
+                names = [k for k in keys[n] if k in vars(o)] + [f"<missing {k}>" for k in keys[n] if k not in vars(o)]
+            else:
+                keys[n] = list(names)
+        return [tn] + [[k, deep_state(vars(o).get(k), keys, seen, depth + 1)] for k in names]
+    if tn in ("Mol", "RWMol"):
+        from rdkit import Chem
+
+        try:
+            return Chem.MolToSmiles(o)
+        except Exception:
+            return tn
+    return tn  # foreign objects (scipy distributions, rdkit enums ...) by type; enums compare below by str
+    
+
+def digest(g, mol, keys=None):
     core_mod = sys.modules["gbigsmiles.core"]
     return (tree(mol, g), tuple(core_mod.BigSMILESbase.bond_descriptors),
-            [(getattr(e, "_raw_text", None)) for e in mol._elements])
+            [(getattr(e, "_raw_text", None)) for e in mol._elements], deep_state(mol, keys))
 
 
 def apply_roles(mol, roles):
@@ -192,7 +242,8 @@ def run_case(case, g, tier, res):
         grng = SymRng()
         npshim.GLOBAL_RANDOM_HOOK[0] = grng
         state0 = copy.deepcopy(core_mod._GLOBAL_RNG.bit_generator.state)
-        dA0 = digest(g, A)
+        keysA = {}
+        dA0 = digest(g, A, keysA)
         hist = []
 
         def detail(what):
@@ -211,7 +262,8 @@ def run_case(case, g, tier, res):
         smiA, wA = ra.smiles, ra.weight
         c.prove(all(r is rng for (_, _, r) in obs.draws) and len(obs.draws) == len(set(id(d) for (d, _, _) in obs.draws)),
                 "every draw uses the supplied generator, once per block", detail("a target mass is drawn from another generator than the supplied one (or twice)"))
-        c.prove(tree_eq(digest(g, A)[0], dA0[0]) and digest(g, A)[1:] == dA0[1:], "parsed object unchanged by the operation", detail("generate changed the parsed object"))
+        dA1 = digest(g, A, keysA)
+        c.prove(And(tree_eq(dA1[0], dA0[0]), dA1[1:3] == dA0[1:3], tree_eq(dA1[3], dA0[3])), "parsed object unchanged by the operation", detail("generate changed the parsed object"))
         c.prove(core_mod._GLOBAL_RNG.bit_generator.state == state0 and len(grng.calls) + len(grng.other_calls) == 0, "global generator untouched",
                 detail("generate with a supplied generator consumed the global generator"))
         picks = [r.index for r in rng.calls]
@@ -221,7 +273,8 @@ def run_case(case, g, tier, res):
         apply_roles(B, roles)
         T = g.Molecule(text)
         apply_roles(T, roles)
-        dB0 = digest(g, B)
+        keysB = {}
+        dB0 = digest(g, B, keysB)
         sB0, eB0, gB0 = B.generate_string(True), B.generate_string(False), B.generable
         for k in range(hl):
             if k == 0:
@@ -240,7 +293,8 @@ def run_case(case, g, tier, res):
                 c.prove(op != 11, "a repeated generation does not raise", detail(f"{OPS[op]} raised {type(e).__name__} on an instance that generated before"))
             if op != 10:
                 c.prove(core_mod._GLOBAL_RNG.bit_generator.state == st, "global generator untouched", detail(f"{OPS[op]} consumed the global generator"))
-            c.prove(tree_eq(digest(g, B)[0], dB0[0]) and digest(g, B)[1:] == dB0[1:], "parsed object unchanged by the operation", detail(f"{OPS[op]} changed a parsed object"))
+            dB1 = digest(g, B, keysB)
+            c.prove(And(tree_eq(dB1[0], dB0[0]), dB1[1:3] == dB0[1:3], tree_eq(dB1[3], dB0[3])), "parsed object unchanged by the operation", detail(f"{OPS[op]} changed a parsed object"))
         c.prove(And(B.generate_string(True) == sB0, B.generate_string(False) == eB0, B.generable == gB0), "printed forms and generability unchanged",
                 detail("printed form / generability changed by the history"))
         # ---- run B with the same stream
@@ -306,12 +360,14 @@ def replay(rp, gb):
     problems = []
     st0 = copy.deepcopy(gcore._GLOBAL_RNG.bit_generator.state)
     s0 = str(A)
+    keysA = {}
+    dA = _plain_digest(gb, A, keysA)
     try:
         A_rng = gendrive.ScriptedRng(rp["picks"])
         ra = A.generate(rng=A_rng)
     except gendrive.ReplayDone:
         return False, "stream ended"
-    if str(A) != s0:
+    if str(A) != s0 or _plain_digest(gb, A, keysA) != dA:
         problems.append("generate changed the parsed object")
     rngA = None
     if any(r is None or not isinstance(r, gendrive.ScriptedRng) for (_, _, r) in obs.draws) or len(obs.draws) != len(set(id(d) for (d, _, _) in obs.draws)):
@@ -321,7 +377,8 @@ def replay(rp, gb):
     gen.OBS[0] = None
     B, T = fresh(), fresh()
     sB = (str(B), B.generate_string(False), B.generable)
-    dB = _plain_digest(gb, B)
+    keysB = {}
+    dB = _plain_digest(gb, B, keysB)
     for k, (op, on) in enumerate(rp["history"]):
         st = copy.deepcopy(gcore._GLOBAL_RNG.bit_generator.state)
         try:
@@ -331,7 +388,7 @@ def replay(rp, gb):
                 problems.append(f"{OPS[op]} raised {type(e).__name__} on an instance that generated before")
         if op != 10 and gcore._GLOBAL_RNG.bit_generator.state != st:
             problems.append(f"{OPS[op]} consumed the global generator")
-        if _plain_digest(gb, B) != dB:
+        if _plain_digest(gb, B, keysB) != dB:
             problems.append(f"{OPS[op]} changed a parsed object")
     if (str(B), B.generate_string(False), B.generable) != sB:
         problems.append("printed form changed")
@@ -357,7 +414,7 @@ def replay(rp, gb):
     return bool(problems), f"{problems}"
 
 
-def _plain_digest(gb, mol):
+def _plain_digest(gb, mol, keys=None):
     from .C01 import _plain
 
-    return repr(_plain(tree(mol, gb)))
+    return repr(_plain(tree(mol, gb))) + repr(deep_state(mol, keys))
